@@ -8,7 +8,10 @@ import (
 	"strconv"
 
 	charging_datatype "github.com/free5gc/chf/ccs_diameter/datatype"
+	"github.com/free5gc/chf/pkg/factory"
 )
+
+var _ = factory.ChfConfig
 
 func verif_forall[T any](f func(T) bool) bool        { return true }
 func verif_forall2[A, B any](f func(A, B) bool) bool { return true }
@@ -120,3 +123,10 @@ func specGranted(a *charging_datatype.AccountDebitResponse) int64 {
 
 // reservation (DIRECT_DEBITING, INITIAL/UPDATE): grant = min(requested, balance), balance lowered by the grant,
 // never below zero, final-unit indication exactly when the request exceeded the balance
+
+// ---- server start (C20) -----------------------------------------------------------------------------
+// As for the rating server (pkg/rf): mongodb, abmfDiameter and abmfDiameter.tls are read unconditionally
+// and are required by validation; the listener goroutine is checked in the state at its go statement.
+//@ func OpenServer [C20]
+//@   go-bodies
+//@   requires factory.SpecValidated(factory.ChfConfig) && wg != nil
